@@ -2,7 +2,7 @@ from collections import OrderedDict
 import inspect
 import logging
 import pathlib
-from typing import Any, cast
+from typing import Any, cast, Optional
 from typing_extensions import TYPE_CHECKING, Type
 
 import yaml
@@ -15,7 +15,9 @@ if TYPE_CHECKING:
 logger = logging.getLogger(__name__)
 
 
-def _sweeten(dumper: 'Dumper', class_: Type, node: Node) -> None:
+def _sweeten(
+        dumper: 'Dumper', class_: Type, node: Node,
+        done: Optional[set] = None) -> None:
     """Applies the user's _yatiml_sweeten() function(s), if any.
 
     Sweetening is done for the registered base classes first, then for
@@ -27,10 +29,15 @@ def _sweeten(dumper: 'Dumper', class_: Type, node: Node) -> None:
         dumper: The dumper that is dumping this object.
         class_: The type of the object to be dumped.
         node: The node representing the object to be dumped.
+        done: Classes already sweetened for, so that a base class
+                reached along two paths is only done once.
     """
+    if done is None:
+        done = set()
+    done.add(class_)
     for base_class in class_.__bases__:
-        if base_class in dumper.yaml_representers:
-            _sweeten(dumper, base_class, node)
+        if base_class in dumper.yaml_representers and base_class not in done:
+            _sweeten(dumper, base_class, node, done)
     if '_yatiml_sweeten' in class_.__dict__:
         logger.debug('Sweetening {} for class {}'.format(
             node, class_.__name__))
